@@ -79,6 +79,10 @@ GrowSizes(kind, tier) ==
     CASE kind \in {"anno_array", "anno_anno"} -> {1, 50, 300, 5000} \cup (IF tier = 0 THEN {100000} ELSE {20000, 100000, 400000})
       [] kind = "condy_fanout" -> {1, 2, 8, 16} \cup (IF tier = 0 THEN {30} ELSE {24, 40, 64})     \* the tree denoted has 2^k nodes
       [] kind = "condy_uses" -> {1, 100, 16000}                                  \* a tree of 4095 constants loaded k times by one method
+      \* one bootstrap method with k plain arguments used by 13 000 call sites / by a constant loaded 16 000 times: every use
+      \* stores its own copy (around the reader's total of 2^20 stored arguments, and the largest the format allows)
+      [] kind = "indy_plain_args" -> {1, 80, 81, 1000, 10000, 65535}
+      [] kind = "condy_plain_args" -> {1, 65, 66, 1000, 65535}
       [] kind = "ifc_args" -> {1, 126, 127, 128, 200, 255}
       [] kind = "method_args" -> {127, 128, 255, 256}
       [] kind = "ifc_baddesc" -> 0..9                 \* index into a list of strings that are no method descriptors
